@@ -144,6 +144,14 @@ impl RemovalBuffer {
 
         if removed_ids.is_empty() {
             self.ids_buffer.push(removed_ids);
+        } else if let Some(buffered_ids) = self.removals.get_mut(&entity) {
+            // Removals from an earlier frame since the last tick: merge instead of overwriting.
+            for (id, fns_id) in removed_ids.drain(..) {
+                if buffered_ids.iter().all(|&(buffered_id, _)| buffered_id != id) {
+                    buffered_ids.push((id, fns_id));
+                }
+            }
+            self.ids_buffer.push(removed_ids);
         } else {
             self.removals.insert(entity, removed_ids);
         }
